@@ -19,7 +19,7 @@ def build(tier):
     obs = []
     for pkind in range(4):
         params = "smode: int, smtime: int, scontent: int, pmode: int, pmtime: int, pcontent: int, delete: bool, extra: bool"
-        pres = ["0 <= smode <= 5", "0 <= scontent <= 4", "0 <= pmode <= 5", "0 <= pcontent <= 4", "0 <= smtime <= 2000000000", "0 <= pmtime <= 2000000000"]
+        pres = ["0 <= smode <= 8", "0 <= scontent <= 4", "0 <= pmode <= 8", "0 <= pcontent <= 4", "0 <= smtime <= 2000000000", "0 <= pmtime <= 2000000000"]
         if pkind != 1:
             pres += ["pmode == 0", "pcontent == 0", "pmtime == 0"]
         else:
@@ -31,12 +31,12 @@ def build(tier):
                               meta={"shape": "single_file", "prior": pkind}))
     for prior in range(3):
         params = "dmode: int, fmode: int, fmtime: int, fcontent: int, delete: bool, two: bool"
-        pres = ["0 <= dmode <= 2", "0 <= fmode <= 5", "0 <= fcontent <= 4", "0 <= fmtime <= 2000000000"]   # directory modes with owner rwx (see hunt below)
+        pres = ["0 <= dmode <= 5", "dmode != 3", "0 <= fmode <= 8", "0 <= fcontent <= 4", "0 <= fmtime <= 2000000000"]   # directory modes with owner rwx (see hunt below)
         body = f"return rsync_tree_ok(dmode, fmode, fmtime, fcontent, {prior}, delete, two)\n"
         src = e1.make_module(PRELUDE, "h", params, pres, body)
         obs.append(Obligation(name=f"tree_prior{prior}", module_src=src, fn="h", timeout=t, meta={"shape": "tree", "prior": prior}))
     # quick-check blind spot: equal size and mtime, different content (and equal or different mode)
-    src = e1.make_module(PRELUDE, "h", "mt: int, pmode: int", ["0 <= mt <= 2000000000", "0 <= pmode <= 5"], "return rsync_single_file_ok(0, mt, 3, 1, pmode, mt, 4, False, False)\n")
+    src = e1.make_module(PRELUDE, "h", "mt: int, pmode: int", ["0 <= mt <= 2000000000", "0 <= pmode <= 8"], "return rsync_single_file_ok(0, mt, 3, 1, pmode, mt, 4, False, False)\n")
     obs.append(Obligation(name="single_file_same_size_mtime_other_content", module_src=src, fn="h", kind="hunt", timeout=60, meta={"shape": "single_file", "prior": 1}))
     # a source directory without owner rwx: the receiver documents that it forces |0o700 on directories
     src = e1.make_module(PRELUDE, "h", "delete: bool", [], "return rsync_tree_ok(3, 0, 5, 1, 0, delete, False)\n")
@@ -66,9 +66,9 @@ def run(tier: str) -> Outcome:
             "equivalent dispatcher calling the same real methods (_process_link/_done/_list_done/_send_item); add_target runs for real on a fake gateway",
             "new files get mode 0o644 and a fixed 'now' mtime at creation (umask model)",
         ],
-        bounds=("single regular file: source mode (6 values), mtime (symbolic int), content (5 values incl. equal-size-different-content) x prior target entry absent / "
+        bounds=("single regular file: source mode (9 values incl. setuid/setgid/sticky), mtime (symbolic int), content (5 values incl. equal-size-different-content) x prior target entry absent / "
                 "file (mode, mtime, content symbolic) / directory with content / dangling symlink x delete flag x unrelated extra entry, followed by a re-sync; "
-                "small tree: directory (3 modes) + file + in-tree symlink + absolute symlink x 3 prior target states x delete x 1-2 targets, followed by a re-sync"),
+                "small tree: directory (5 modes incl. setgid/sticky) + file + in-tree symlink + absolute symlink x 3 prior target states x delete x 1-2 targets, followed by a re-sync"),
         outside=["names with spaces/unicode (names are opaque keys to this code), large files, real file systems, Windows branches",
                  "relative symlinks and caller working directories other than '/' (os.path.relpath against cwd)",
                  "directory mtimes (populating a directory changes them by definition)",
